@@ -130,6 +130,7 @@ def run(ctx):
             ml, idx = [], []
             per_layout = {}
             cells_total = 0
+            wrappers_total = 0
             for i, (c, line) in enumerate(zip(cases, hout)):
                 _, st, a = parse_answer(line)
                 lay = c["layout"]
@@ -150,6 +151,7 @@ def run(ctx):
                          "oracle": f"cells={cells} masks={a['masks']} phases-equal={a['dec']} cellenc={a['cellenc']} ser={a['ser']} seeds-in-loop-order={a['seedwords']}",
                          "rerun": f"printf '%s\\n' '{hl[i]}' | harness/target/release/pvh cmp"}
                     witness = witness or w
+                wrappers_total += int(a.get("wrappers", 0))
                 if lay in MODEL_LAYOUTS:
                     ml.append(model_line(i, c, a))
                     idx.append(i)
@@ -175,6 +177,7 @@ def run(ctx):
                         if len(broken) < 20:
                             broken.append(f"model/implementation disagree ({c['layout']}): {hl[i][:240]}")
                             ctx.cov.setdefault("first_disagreement", {"harness": hl[i], "impl": hout[i][:1500], "model": ln[:1500]})
+                ctx.cov["lwe_wrapper_objects"] = wrappers_total
                 ctx.cov["model_tied_objects"] = len(ml)
                 ctx.cov["model_agree"] = agree
             # compressed blind-rotation key of poulpy-bin-fhe (pvh rndb brkc_check): same per-cell criteria
@@ -234,6 +237,63 @@ def run(ctx):
                         witness = witness or {"case": req, "implementation": line, "object": "BlindRotationKeyCompressed",
                                               "oracle": "a decompressed cell of the compressed blind-rotation key differs from the standard encryption under the stored seed",
                                               "rerun": f"printf '%s\\n' '{req}' | harness/target/release/pvh rndb"}
+            # LWECompressed (no producing routine in poulpy-core): built from its wire format out of a standard LWE ciphertext with
+            # source_xa = Source::new(seed); decompress_lwe must return that ciphertext; the model runs decompress_lwe as it is
+            ll = []
+            for be in BES:
+                for j in range(6 if quick else 60):
+                    b = rng.range(3, 17)
+                    size = rng.range(1, 3)
+                    k = (size - 1) * b + rng.range(1, b)
+                    nl = [1, 1, 2, 3, 5, 8][j % 6]
+                    ptv = "|".join(str(rng.range(-(1 << (b - 1)), (1 << (b - 1)) - 1)) for _ in range(size))
+                    ll.append(f"{len(ll)} lwec be={be} n=8 nl={nl} b={b} k={k} kxe={k} rank=1 dnum=1 dsize=1 dist={rng.choice(['tp:0.5', 'bp:0.5'])} "
+                              f"sxs={rng.next()} sxa={rng.next()} sxe={rng.next()} ptv={ptv}")
+            rcl, lout, lerr = ctx.run_lines(binp, ["cmp"], ll, timeout=3000)
+            lwe_finding = None
+            if rcl != 0 or len(lout) != len(ll):
+                broken.append(f"pvh cmp lwec failed rc={rcl} {lerr[-300:]}")
+            else:
+                lml = []
+                for j, (req, line) in enumerate(zip(ll, lout)):
+                    _, st, a = parse_answer(line)
+                    kvr = dict(x.split("=", 1) for x in req.split()[2:] if "=" in x)
+                    per_layout["lwec"] = per_layout.get("lwec", 0) + 1
+                    ctx.count_case(("lwec", kvr["be"], kvr["nl"], kvr["b"], kvr["k"]))
+                    if st != "ok":
+                        ctx.disagreements += 1
+                        broken.append(f"implementation failed: {req} -> {line[:160]}")
+                        lml.append(f"{j} enc lwe_dec b=1 nl=0 body=0 xa=0")
+                        continue
+                    lml.append(f"{j} enc lwe_dec b={kvr['b']} nl={kvr['nl']} body={a['body']} xa={a['child']}")
+                rcm, lmout, lmerr = ctx.run_lines(drv, [], lml, timeout=3000)
+                if rcm != 0 or len(lmout) != len(lml):
+                    broken.append(f"pdriver lwe_dec failed rc={rcm} {lmerr[-200:]}")
+                else:
+                    lagree = 0
+                    for req, line, ln in zip(ll, lout, lmout):
+                        _, st, a = parse_answer(line)
+                        if st != "ok":
+                            continue
+                        t = ln.split()
+                        model = t[1] if len(t) > 1 else ""
+                        impl_panic = a["dec"] == "-2"
+                        if (model == "panic") == impl_panic and (impl_panic or (model == a["obj"] and a["dec"] == "1" and a["ser"] == "1")):
+                            lagree += 1
+                        else:
+                            ctx.disagreements += 1
+                            if len(broken) < 20:
+                                broken.append(f"model/implementation disagree (lwec): {req} -> {line[:200]} / model {ln[:120]}")
+                        if impl_panic and lwe_finding is None:
+                            lwe_finding = {"case": req, "implementation": line[:400], "object": "LWECompressed",
+                                           "oracle": "decompress_lwe panics (layout assertion) although the decompression is well defined and equals the "
+                                                     "standard ciphertext (model: Core.decompressLwe = ct, theorem C19.lwe_compress_decompress)",
+                                           "rerun": f"printf '%s\\n' '{req}' | harness/target/release/pvh cmp"}
+                    ctx.cov["model_tied_lwec"] = len(lml)
+                    ctx.cov["model_agree_lwec"] = lagree
+            if lwe_finding is not None:
+                ctx.violation("decompress_lwe rejects every LWE dimension other than 1: LWECompressed::n() reports the ring degree of its body buffer",
+                              lwe_finding, True, key="decompress_lwe:layout-assert:n_lwe!=1")
             ctx.cov["objects_by_layout"] = per_layout
             ctx.cov["cells_total"] = cells_total
             ctx.cov["by_backend"] = {be: sum(1 for c in cases if c["be"] == be) for be in BES}
